@@ -622,14 +622,18 @@ def correspond(ctx):
         ("mul-unsat", [f_mul[256](rx, ry) == kv(15), rx == kv(3), ry != kv(5)], [rx * ry == kv(15), rx == kv(3), ry != kv(5)]),
         ("mul-sat", [f_mul[256](rx, ry) == kv(15), rx == kv(3)], [rx * ry == kv(15), rx == kv(3)]),
         ("div-by-zero-unsat", [f_div(rx, ry) == kv(3), ry == kv(0)], [udiv0(rx, ry) == kv(3), ry == kv(0)]),
-        ("div-sat", [f_div(rx, ry) == kv(3), ry == kv(4), z3.ULT(rx, kv(14))], [udiv0(rx, ry) == kv(3), ry == kv(4), z3.ULT(rx, kv(14))]),
+        ("div-sat", [f_div(rx, ry) == kv(3), ry == kv(4), rx == kv(13)], [udiv0(rx, ry) == kv(3), ry == kv(4), rx == kv(13)]),
         ("mod-unsat", [f_mod[256](rx, ry) == kv(7), ry == kv(5)], [urem0(rx, ry) == kv(7), ry == kv(5)]),
         ("mod-zero-unsat", [f_mod[256](rx, ry) == rx, ry == kv(0), rx == kv(9)], [urem0(rx, ry) == rx, ry == kv(0), rx == kv(9)]),
         ("mod-sat", [f_mod[256](rx, ry) == kv(2), ry == kv(5), rx == kv(12)], [urem0(rx, ry) == kv(2), ry == kv(5), rx == kv(12)]),
     ]
+    t_b5 = time.time()
     for ri, (rname, conds_abs, conds_exact) in enumerate(ref_cases):
+        t_case = time.time()
         for sname in ("yices", "z3"):
-            if ctx.tier == "quick" and (ri + (sname == "z3")) % 2:
+            if sname == "z3" and not rname.startswith("mul") and ctx.tier == "quick":
+                continue        # z3 takes 15-20 s on refined 256-bit division queries; yices milliseconds
+            if ctx.tier == "quick" and rname.startswith("mul") and (ri + (sname == "z3")) % 2:
                 continue
             on, off = Pipeline(eng, True, solver_cmds[sname]), Pipeline(eng, False, solver_cmds[sname])
             # an earlier unsat query of the same function, so that the cache is not empty
@@ -654,6 +658,8 @@ def correspond(ctx):
             on.close()
             off.close()
             del p0, pr
+        ctx.extra.setdefault('t_b5_cases', {})[rname] = round(time.time() - t_case, 1)
+    ctx.extra['t_b5'] = round(time.time() - t_b5, 1)
 
     # =============================================================== (b4) degenerate cores from the solver / front-end
     # The first unsat reply of a function carries an empty core `()` (what z3 prints when no assertion is named, or a front-end that
